@@ -673,6 +673,20 @@ L4_FORMS = [
      ["a.b", "b0.b", "c0.b", "a.c"], lambda st: (1 if (st["b0.b"] and (st["c0.b"] or st["a.c"])) else 2) if st["a.b"] else 0),
     ("comparison-of-logicals", "((a.b && b0.b) == (c0.b || a.c)) ? 1 : 0", ["a.b", "b0.b", "c0.b", "a.c"],
      lambda st: int((st["a.b"] and st["b0.b"]) == (st["c0.b"] or st["a.c"]))),
+    # name resolution: a local wins over everything the context offers under the same name, for as long as it is in scope
+    ("local-named-like-an-object-id", "{ let b0 = a; return b0.i; }", ["a.i", "b0.i"], lambda st: st["a.i"]),
+    ("local-named-like-another-object-id", "{ let a = b0; return a.i * 2; }", ["a.i", "b0.i"], lambda st: st["b0.i"] * 2),
+    ("local-named-like-an-object-id-from-ternary", "{ let b0 = c0.b ? a : c0; return b0.i; }", ["c0.b", "a.i", "c0.i", "b0.i"],
+     lambda st: st["a.i"] if st["c0.b"] else st["c0.i"]),
+    ("local-named-like-a-property-of-this", "{ let i = a.i + 1; return i; }", ["a.i"], lambda st: st["a.i"] + 1),
+    ("const-named-like-a-property-of-this", "{ const j = 5; return j + a.i; }", ["a.i"], lambda st: 5 + st["a.i"]),
+    ("local-named-like-an-object-id-ends-with-its-block", "{ let r = b0.i; { let b0 = a; r = r + b0.i; } return r * 10 + b0.i; }", ["a.i", "b0.i"],
+     lambda st: (st["b0.i"] + st["a.i"]) * 10 + st["b0.i"]),
+    # (reading `a` in the default clause would be a read of the case-scoped local before its declaration: undefined, not written)
+    ("local-named-like-an-object-id-in-a-case", "{ let r = 0; switch (c0.i) { case 1: let a = b0; r = a.i; break; default: r = 7; } return r * 100 + a.i; }",
+     ["c0.i", "a.i", "b0.i"], lambda st: (st["b0.i"] if st["c0.i"] == 1 else 7) * 100 + st["a.i"]),
+    ("local-named-like-an-object-id-assigned-later", "{ let b0 = a; if (c0.b) { b0 = c0; } return b0.i; }", ["c0.b", "a.i", "c0.i", "b0.i"],
+     lambda st: st["c0.i"] if st["c0.b"] else st["a.i"]),
     ("arith-of-ternaries", "(a.b ? a.i : 1) * (b0.b ? b0.i : 2) + (c0.b ? 1 : 0)", ["a.b", "a.i", "b0.b", "b0.i", "c0.b"],
      lambda st: (st["a.i"] if st["a.b"] else 1) * (st["b0.i"] if st["b0.b"] else 2) + (1 if st["c0.b"] else 0)),
 ]
